@@ -198,7 +198,7 @@ _tg, _te = _thr.make(T_CALLS, ['geodepy/convert.py'], 'convert:cartesian:threads
 SUBCHECKS = [
     Sub('geo', gen_geo, ev_geo, chunk=8, floor=1000, envs=6),
     Sub('cart', gen_cart, ev_cart, chunk=8, floor=300, envs=12),
-    Sub('threads', _tg, _te, chunk=1, floor=3, poison=False, fresh=True),
+    Sub('threads', _tg, _te, chunk=1, floor=3, poison=False, fresh=True, timeout=3600),
 ]
 
 
